@@ -80,13 +80,40 @@ def extract(ctx, body):
                 if n1.endswith(suf) or n2.endswith(suf):
                     add(bb, 10 ** 9, "call:" + nm, st)
                     break
-    # returns: assignments to _0
+    # returns: assignments to _0 — or to a local whose value only travels on to _0 (the return slot of a helper merged into
+    # this body: `_r = Ok(..)`, `_p = Poll::Ready(move _r)`, `_v = (_p as Ready).0`, `_0 = move _v`)
+    carriers = {0}
+    grew = True
+    while grew:
+        grew = False
+        for b in body.blocks:
+            if b.cleanup:
+                continue
+            for s in b.stmts:
+                if s.kind != "assign" or not s.place.is_local() or s.place.local not in carriers or body.is_noise(s):
+                    continue
+                src = None
+                if s.rv.k == "use" and s.rv.ops and s.rv.ops[0].place is not None:
+                    pl = s.rv.ops[0].place
+                    if pl.is_local() or [p for p in pl.proj if isinstance(p, dict) and p.get("dc") == "Ready"] or \
+                            (len(pl.proj) == 2 and isinstance(pl.proj[0], dict) and "dc" in pl.proj[0]):
+                        src = pl.local
+                elif s.rv.k == "agg" and s.rv.j.get("adt", "").endswith("task::Poll") and s.rv.j.get("variant") == "Ready" and s.rv.ops \
+                        and s.rv.ops[0].place is not None and s.rv.ops[0].place.is_local():
+                    src = s.rv.ops[0].place.local
+                if src is not None and src not in carriers and src > body.arg_count:
+                    carriers.add(src)
+                    grew = True
     for b in body.blocks:
         if b.cleanup:
             continue
         for i, s in enumerate(b.stmts):
-            if s.kind == "assign" and s.place.is_local() and s.place.local == 0 and not body.is_noise(s):
+            if s.kind == "assign" and s.place.is_local() and s.place.local in carriers and not body.is_noise(s):
                 rv = s.rv
+                if rv.k == "use" and rv.ops and rv.ops[0].place is not None and rv.ops[0].place.local in carriers:
+                    continue    # the value was classified where it was produced
+                if rv.k == "agg" and rv.j.get("adt", "").endswith("task::Poll"):
+                    continue
                 if rv.k == "agg" and rv.j.get("adt", "").endswith("result::Result"):
                     if rv.j["variant"] == "Ok":
                         add(b.idx, i, "ret:ok", body.site(s))
@@ -103,7 +130,7 @@ def extract(ctx, body):
                 else:
                     add(b.idx, i, "ret:?", body.site(s))
         t = b.term
-        if t.kind == "call" and t.dest is not None and t.dest.is_local() and t.dest.local == 0:
+        if t.kind == "call" and t.dest is not None and t.dest.is_local() and t.dest.local in carriers:
             if dname(t).endswith("FromResidual::from_residual"):
                 add(b.idx, 10 ** 9, "ret:err:?", body.site(t))
             else:
